@@ -225,11 +225,102 @@ func (w *World) FnOpt(short, name string) *ssa.Function {
 		}
 		sel := w.Prog.MethodSets.MethodSet(T).Lookup(p.Pkg, mn)
 		if sel == nil {
-			return nil
+			return w.fnBySignature(short, name)
 		}
 		return w.Prog.MethodValue(sel)
 	}
-	return p.Func(name)
+	if f := p.Func(name); f != nil {
+		return f
+	}
+	return w.fnBySignature(short, name)
+}
+
+// namelessSig: receiver type and signature of f without the names of its parameters.
+func namelessSig(f *ssa.Function) string {
+	sig := f.Signature
+	var b strings.Builder
+	if r := sig.Recv(); r != nil {
+		b.WriteString("(" + types.TypeString(r.Type(), nil) + ")")
+	}
+	b.WriteString("func(")
+	for i := 0; i < sig.Params().Len(); i++ {
+		if i > 0 {
+			b.WriteString(",")
+		}
+		if sig.Variadic() && i == sig.Params().Len()-1 {
+			b.WriteString("...")
+		}
+		b.WriteString(types.TypeString(sig.Params().At(i).Type(), nil))
+	}
+	b.WriteString(")(")
+	for i := 0; i < sig.Results().Len(); i++ {
+		if i > 0 {
+			b.WriteString(",")
+		}
+		b.WriteString(types.TypeString(sig.Results().At(i).Type(), nil))
+	}
+	b.WriteString(")")
+	return b.String()
+}
+
+// packageFuncs: the functions and methods declared in the package (no literals, no wrappers).
+func (w *World) packageFuncs(p *ssa.Package) []*ssa.Function {
+	var out []*ssa.Function
+	for _, m := range p.Members {
+		switch x := m.(type) {
+		case *ssa.Function:
+			if x.Synthetic == "" {
+				out = append(out, x)
+			}
+		case *ssa.Type:
+			for _, T := range []types.Type{x.Type(), types.NewPointer(x.Type())} {
+				ms := w.Prog.MethodSets.MethodSet(T)
+				for i := 0; i < ms.Len(); i++ {
+					if f := w.Prog.MethodValue(ms.At(i)); f != nil && f.Synthetic == "" && f.Pkg == p {
+						out = append(out, f)
+					}
+				}
+			}
+		}
+	}
+	return out
+}
+
+// fnBySignature: an anchor function that is not found under its name is looked for by what it is: the only
+// function of the package that has the receiver and signature the anchor had on the reference tree
+// (anchorSigs, generated from /repo) and that is not itself an anchor under its own name. A renamed helper is
+// still the helper; two candidates, or none, leave the anchor unresolved.
+func (w *World) fnBySignature(short, name string) *ssa.Function {
+	want, ok := anchorSigs[short+"|"+name]
+	p := w.SSA[short]
+	if !ok || p == nil {
+		return nil
+	}
+	var found []*ssa.Function
+	seen := map[*ssa.Function]bool{}
+	for _, f := range w.packageFuncs(p) {
+		if seen[f] || namelessSig(f) != want {
+			continue
+		}
+		seen[f] = true
+		// a function that is an anchor under its own name keeps that role
+		own := f.Name()
+		if r := f.Signature.Recv(); r != nil {
+			own = strings.TrimPrefix(types.TypeString(r.Type(), func(*types.Package) string { return "" }), "") + "." + f.Name()
+			if pt, isPtr := r.Type().(*types.Pointer); isPtr {
+				own = "(*" + types.TypeString(pt.Elem(), func(*types.Package) string { return "" }) + ")." + f.Name()
+			}
+		}
+		if _, isAnchor := anchorSigs[short+"|"+own]; isAnchor {
+			continue
+		}
+		found = append(found, f)
+	}
+	if len(found) == 1 {
+		fmt.Fprintf(os.Stderr, "note: anchor %s.%s is not declared under that name; resolved by receiver and signature to %s\n", short, name, fnName(found[0]))
+		return found[0]
+	}
+	return nil
 }
 
 func (w *World) Named(short, name string) *types.Named {
